@@ -273,3 +273,119 @@ NATIVE.update({k: v for k, v in dict(
     index_of=index_of, partition=partition, distinct=distinct, paused_first=paused_first, no_member=no_member,
     registered=registered, same_set=same_set, set_plus=set_plus, set_minus=set_minus, set_union_is=set_union_is,
     removed_at=removed_at, none_before=none_before, moved_to_paused=moved_to_paused, is_pull=is_pull, ite=ite).items()})
+# ---- C01 / C02 (key derivation, sealing, codecs): defined from the libraries, never from the repository
+import binascii as _binascii
+import hashlib as _hashlib
+import json as _json
+
+
+def nfc(s):
+    return unicodedata.normalize("NFC", s)
+
+
+def utf8(s):
+    return s.encode("utf-8")
+
+
+def is_ascii(s):
+    return all((c if isinstance(c, int) else ord(c)) < 128 for c in s)
+
+
+def ascii_bytes(s):
+    return s.encode("ascii") if isinstance(s, str) else bytes(s)
+
+
+def sha256_of(b):
+    return _hashlib.sha256(b).digest()
+
+
+def hkdf4(k, n, salt, info):
+    from cryptography.hazmat.primitives import hashes
+    from cryptography.hazmat.primitives.kdf.hkdf import HKDF
+    return HKDF(hashes.SHA256(), n, salt, info).derive(k)
+
+
+def hkdf(k, n, info):
+    return hkdf4(k, n, None, info)
+
+
+def phase_purpose(side, phase):
+    return b"wormhole:phase:" + sha256_of(ascii_bytes(side)) + sha256_of(ascii_bytes(phase))
+
+
+def phase_key(k, side, phase):
+    return hkdf(k, 32, phase_purpose(side, phase))
+
+
+def _box(k):
+    from nacl.secret import SecretBox
+    return SecretBox(k)
+
+
+def sbox_valid(k, c):
+    try:
+        _box(k).decrypt(c)
+        return True
+    except Exception:
+        return False
+
+
+def sbox_open(k, c):
+    return _box(k).decrypt(c)
+
+
+def sbox_encrypt(k, n, p):
+    return bytes(_box(k).encrypt(p, n))
+
+
+def sealed(c, k, p):
+    return len(c) == len(p) + 40 and bytes(_box(k).encrypt(p, bytes(c[:24]))) == bytes(c)
+
+
+def json_bytes(d):
+    return _json.dumps(d).encode("utf-8")
+
+
+def json_parses(b):
+    try:
+        _json.loads(b.decode("utf-8"))
+        return True
+    except Exception:
+        return False
+
+
+def json_of(b):
+    try:
+        return _json.loads(b.decode("utf-8"))
+    except Exception:
+        return None
+
+
+def is_hex(s):
+    try:
+        _binascii.unhexlify(s)
+        return True
+    except Exception:
+        return False
+
+
+def unhex(s):
+    try:
+        return _binascii.unhexlify(s)
+    except Exception:
+        return None
+
+
+NATIVE.update({
+    "nfc": nfc, "utf8": utf8, "is_ascii": is_ascii, "ascii": ascii_bytes, "json_str": lambda j: j, "sha256_of": sha256_of,
+    "hkdf": hkdf, "hkdf4": hkdf4, "phase_purpose": phase_purpose, "phase_key": phase_key, "sbox_valid": sbox_valid,
+    "sbox_open": sbox_open, "sbox_encrypt": sbox_encrypt, "sealed": sealed, "json_bytes": json_bytes,
+    "json_parses": json_parses, "json_of": json_of, "is_hex": is_hex, "unhex": unhex,
+    "hex_of": lambda b: _binascii.hexlify(b).decode("ascii"),
+    "json_has": lambda j, k: isinstance(j, dict) and k in j,
+    "json_get": lambda j, k: j.get(k) if isinstance(j, dict) else None,
+    "is_numeric_phase": lambda s: re.search(r"^\d+$", s) is not None,
+    "is_dilate_phase": lambda s: re.search(r"^dilate-(\d+)$", s) is not None,
+    "decimal_value": lambda s: int(s),
+    "imp": lambda a, b: (not a) or b,
+})
